@@ -366,7 +366,6 @@ def w_r7_indent(p: Project, rep: Report):
         attr = st.targets[0].attr
         obj = text(st.targets[0].value)
         slot = f"{obj}.{attr}"
-        blank = PT.any_of(PT.atom(f"bool({slot})", False), PT.atom(f"bool({slot}.strip())", False))
         guard_ok = True
         seen = False
         for pth in pths:
@@ -374,16 +373,21 @@ def w_r7_indent(p: Project, rep: Report):
             if cb is None:
                 continue
             seen = True
+            # the object stored to, as the path's conditions name it (conditions are path-resolved)
+            slots = {slot, f"{text(PT.value_on_path(pth, cfg, st.targets[0].value, upto=pth.index_of(n.id)))}.{attr}"}
+            blank = PT.any_of(*[a for s_ in sorted(slots) for a in (PT.atom(f"bool({s_})", False), PT.atom(f"bool({s_}.strip())", False))])
             if PT.implies(cb, blank) is False:
                 guard_ok = False
         val = ex.x(st.value)
         ws_ok = all(isinstance(c.value, str) and c.value.strip() == "" for c in ast.walk(val) if isinstance(c, ast.Constant) and isinstance(c.value, str)) and not any(isinstance(a, ast.Attribute) and a.attr in ("text", "tail") for a in ast.walk(val))
         in_children = True
         if attr == "text":
-            has_children = PT.atom(f"bool({obj})")
             for pth in pths:
                 cb = pth.conds_before(n.id)
-                if cb is not None and PT.implies(cb, has_children) is False:
+                if cb is None:
+                    continue
+                objs = {obj, text(PT.value_on_path(pth, cfg, st.targets[0].value, upto=pth.index_of(n.id)))}
+                if PT.implies(cb, PT.any_of(*[PT.atom(f"bool({o})") for o in sorted(objs)])) is False:
                     in_children = False
         if not seen:
             continue
